@@ -435,6 +435,7 @@ type vf09Mon struct {
 	// snt: every Interim / Stop >= the last value SENT in the bracket (acknowledged or not)
 	// ord: the arrival stream is a prefix of (Start Interim* Stop)*  (meaningful for a never-restored session)
 	prevSent [4]uint64
+	sntq     [4]bool // snt per counter: in-octets, out-octets, in-packets, out-packets
 	snt, ord bool
 	// ord: the bracket WITH restore - 0 closed, 1 quiet (restored, nothing sent yet), 2 open
 	bst int
@@ -475,6 +476,11 @@ func (m *vf09Mon) event(kind byte, calls []vf09Call) {
 			if !geS {
 				m.snt = false
 			}
+			for q := 0; q < 4; q++ {
+				if v[q] < m.prevSent[q] {
+					m.sntq[q] = false
+				}
+			}
 			if m.bst == 0 {
 				m.ord = false
 			}
@@ -490,6 +496,11 @@ func (m *vf09Mon) event(kind byte, calls []vf09Call) {
 			}
 			if !geS {
 				m.snt = false
+			}
+			for q := 0; q < 4; q++ {
+				if v[q] < m.prevSent[q] {
+					m.sntq[q] = false
+				}
 			}
 			if m.bst == 0 {
 				m.ord = false
@@ -738,7 +749,7 @@ func vf09RunCase(line string, g0 int) (res string) {
 	var groups []string
 	mons := make([]vf09Mon, k)
 	for i := range mons {
-		mons[i] = vf09Mon{brk: true, stp: true, mono: true, snt: true, ord: true}
+		mons[i] = vf09Mon{brk: true, stp: true, mono: true, snt: true, ord: true, sntq: [4]bool{true, true, true, true}}
 	}
 	ops := f[2+k:]
 	racy := false
@@ -1001,7 +1012,8 @@ func vf09RunCase(line string, g0 int) (res string) {
 		if w.forgot[w.sess[j].id] {
 			x += "Q"
 		}
-		vs = append(vs, fmt.Sprintf("v%d=%s%s%s%s%s%s", j, bit(mons[j].brk), bit(mons[j].stp), bit(mons[j].mono), bit(mons[j].snt), bit(mons[j].ord), x))
+		vs = append(vs, fmt.Sprintf("v%d=%s%s%s%s%s%s%s%s%s", j, bit(mons[j].brk), bit(mons[j].stp), bit(mons[j].mono),
+			bit(mons[j].sntq[0]), bit(mons[j].sntq[1]), bit(mons[j].sntq[2]), bit(mons[j].sntq[3]), bit(mons[j].ord), x))
 	}
 	d := "racy"
 	if !racy {
